@@ -28,7 +28,51 @@ pub struct SegmentOut {
     pub finished: bool,
 }
 
+/// hits of the ckb-freezer fail points since process start
+pub static FRZ_HEAD_HITS: std::sync::atomic::AtomicU64 = std::sync::atomic::AtomicU64::new(0);
+pub static FRZ_INDEX_HITS: std::sync::atomic::AtomicU64 = std::sync::atomic::AtomicU64::new(0);
+/// armed death at a freezer fail point: (site, absolute hit number, torn, scratch dir)
+static FRZ_TARGET: std::sync::Mutex<Option<(String, u64, bool, std::path::PathBuf)>> = std::sync::Mutex::new(None);
+/// sizes of the freezer files when the current freeze pass started (all of it fsynced)
+static PASS_SIZES: std::sync::Mutex<Vec<(String, u64)>> = std::sync::Mutex::new(Vec::new());
+
+fn frz_hit(site: &'static str) {
+    use std::sync::atomic::Ordering::SeqCst;
+    let n = if site == "write-head" { FRZ_HEAD_HITS.fetch_add(1, SeqCst) + 1 } else { FRZ_INDEX_HITS.fetch_add(1, SeqCst) + 1 };
+    let t = FRZ_TARGET.lock().unwrap().clone();
+    if let Some((s, target, torn, dir)) = t {
+        if s == site && n == target {
+            if torn {
+                let sizes = PASS_SIZES.lock().unwrap().clone();
+                let _ = std::fs::write(dir.join("torn.json"), serde_json::to_string(&sizes).unwrap());
+            }
+            unsafe { libc::_exit(86) }
+        }
+    }
+}
+
+fn ancient_sizes(dir: &std::path::Path) -> Vec<(String, u64)> {
+    let mut v = Vec::new();
+    if let Ok(rd) = std::fs::read_dir(dir.join("ancient")) {
+        for e in rd.flatten() {
+            if let Ok(m) = e.metadata() {
+                if m.is_file() {
+                    v.push((e.file_name().to_string_lossy().to_string(), m.len()));
+                }
+            }
+        }
+    }
+    v.sort();
+    v
+}
+
 pub struct Exec {
+    dir: std::path::PathBuf,
+    write_base: u64,
+    freeze_windows: Vec<[u64; 6]>,
+    /// the operations as executed (skipped deliveries removed, settling drains made explicit):
+    /// what the freezer-less twin of a C10 run executes
+    eff_ops: Vec<Op>,
     pub sc: Scenario,
     pub w: World,
     pub node: Node,
@@ -54,6 +98,9 @@ impl Exec {
         // under crash injection the C01/C02/C20 oracles are C08's oracles ("same tip and state as a
         // run that never crashed", "replay consistency for some prefix")
         let prop = if self.sc.prop == "C08" && ["C01", "C02", "C20"].contains(&prop) { "C08" } else { prop };
+        // with the freezer on, store consistency / reopen / proposal-view oracles are C10's
+        // ("changes no answer", "a crash ... leaves a state from which the next run continues")
+        let prop = if self.sc.prop == "C10" && ["C02", "C08", "C20"].contains(&prop) { "C10" } else { prop };
         if self.res.violation.is_none() && (prop == self.sc.prop || self.sc.prop == "ALL") {
             self.res.violation = Some(Violation {
                 property: prop.into(),
@@ -79,15 +126,21 @@ impl Exec {
             now = now.max(b.view.timestamp());
         }
         ft.set_faketime(now);
-        let store_cfg = sc.store_caches.map(|c| ckb_app_config::StoreConfig {
-            header_cache_size: c[0],
-            cell_data_cache_size: c[1],
-            block_proposals_cache_size: c[2],
-            block_tx_hashes_cache_size: c[3],
-            block_uncles_cache_size: c[4],
-            block_extensions_cache_size: c[5],
-            freezer_enable: sc.freezer,
-        });
+        let store_cfg = if sc.store_caches.is_some() || sc.freezer {
+            let mut cfg = ckb_app_config::StoreConfig::default();
+            if let Some(c) = sc.store_caches {
+                cfg.header_cache_size = c[0];
+                cfg.cell_data_cache_size = c[1];
+                cfg.block_proposals_cache_size = c[2];
+                cfg.block_tx_hashes_cache_size = c[3];
+                cfg.block_uncles_cache_size = c[4];
+                cfg.block_extensions_cache_size = c[5];
+            }
+            cfg.freezer_enable = sc.freezer;
+            Some(cfg)
+        } else {
+            None
+        };
         let node = Node::open(dir, w.consensus.clone(), sc.freezer, store_cfg)?;
         let mut delivered = Vec::new();
         let mut delivered_set = BTreeSet::new();
@@ -106,7 +159,15 @@ impl Exec {
             .append(true)
             .open(dir.join("progress.log"))
             .ok();
+        if sc.freezer {
+            let _ = fail::cfg_callback("write-head", || frz_hit("write-head"));
+            let _ = fail::cfg_callback("write-index", || frz_hit("write-index"));
+        }
         Ok(Exec {
+            dir: dir.to_path_buf(),
+            write_base: ckb_db::verif::writes(),
+            freeze_windows: Vec::new(),
+            eff_ops: Vec::new(),
             res: RunResult {
                 seed: sc.seed,
                 ..Default::default()
@@ -148,6 +209,9 @@ impl Exec {
         // the store must be a consistent replay for the tip it reports
         self.check_tip_consistency("after_restart");
         self.check_proposals("after_restart");
+        if self.sc.freezer {
+            self.check_frozen("after_restart");
+        }
         let mut drained = 0u64;
         let n = {
             let node = &self.node;
@@ -177,10 +241,17 @@ impl Exec {
                 }
             }
             if let Some((n, h)) = left {
+                if std::env::var_os("SIM_TRACE").is_some() {
+                    let hd = store.get_block_header(&h).unwrap();
+                    eprintln!("[dbg] left {n} {} ext {:?} parent {} parent_ext {:?} tip {}", hex(&h), store.get_block_ext(&h).map(|e| e.verified), hex(&hd.parent_hash()), store.get_block_ext(&hd.parent_hash()).map(|e| e.verified), hex(&self.node.shared.snapshot().tip_hash()));
+                }
                 self.viol("C08", "stored_unverified_block_not_picked_up", format!("block {n} {} is stored without a verdict although its parent has one", hex(&h)));
             }
         }
         for b in self.delivered.clone() {
+            if self.sc.freezer && !self.above_frozen(b) {
+                continue;
+            }
             let v = self.w.blocks[b].view.clone();
             self.node.deliver(&v);
             self.node.drain();
@@ -190,6 +261,203 @@ impl Exec {
 
     fn tick(&mut self) {
         self.ft.set_faketime(self.now);
+    }
+
+    /// model index of the last block in the freezer (None when nothing is frozen)
+    fn frozen_anchor(&self) -> Option<usize> {
+        let store = self.node.shared.store();
+        let f = store.freezer()?;
+        let n = f.number();
+        if n <= 1 {
+            return None;
+        }
+        let raw = f.retrieve(n - 1).ok()??;
+        let h = packed::BlockReader::from_compatible_slice(&raw).ok()?.header().to_entity().calc_header_hash();
+        self.w.by_hash.get(&h).cloned()
+    }
+
+    fn descends_or_on(&self, b: usize, anchor: usize) -> bool {
+        let an = self.w.blocks[anchor].number as usize;
+        let cb = &self.w.st(b).chain;
+        if cb.get(an) == Some(&anchor) {
+            return true;
+        }
+        // b itself one of the frozen main-chain blocks
+        self.w.st(anchor).chain.get(self.w.blocks[b].number as usize) == Some(&b)
+    }
+
+    fn above_frozen(&self, b: usize) -> bool {
+        match self.frozen_anchor() {
+            None => true,
+            Some(a) => self.descends_or_on(b, a),
+        }
+    }
+
+    /// would this freeze pass move blocks which a block still in the pipeline does not build on?
+    fn inflight_below_threshold(&self) -> bool {
+        if self.node.quiescent() {
+            return false;
+        }
+        let snap = self.node.shared.snapshot();
+        let Some(ti) = self.w.by_hash.get(&snap.tip_hash()).cloned() else { return false };
+        let st = self.w.st(ti);
+        let cur = st.epoch.number;
+        if cur <= 2 {
+            return false;
+        }
+        let Some(e) = st.chain.iter().rev().find(|i| self.w.blocks[**i].epoch.number == cur - 2).cloned() else { return false };
+        let judged: BTreeSet<packed::Byte32> = self.node.verdicts.lock().unwrap().iter().map(|(h, _)| h.clone()).collect();
+        self.delivered_set.iter().any(|b| !judged.contains(&self.w.blocks[*b].view.hash()) && !self.descends_or_on(*b, e))
+    }
+
+    /// C10: freezing is invisible; only blocks strictly below the two-epoch threshold are moved
+    fn check_frozen(&mut self, why: &str) {
+        let shared = self.node.shared.clone();
+        let store = shared.store();
+        let Some(freezer) = store.freezer() else { return };
+        let frozen = freezer.number(); // blocks 1..frozen-1 are in the freezer
+        let snap = shared.cloned_snapshot();
+        let tip = snap.tip_hash();
+        let Some(ti) = self.w.by_hash.get(&tip).cloned() else { return };
+        if !self.w.blocks[ti].chain_valid {
+            return;
+        }
+        let chain = self.w.st(ti).chain.clone();
+        let cur_epoch = self.w.st(ti).epoch.number;
+        // threshold: the last block of epoch (current - 2); nothing at or above it may be frozen
+        if frozen > 1 {
+            if cur_epoch <= 2 {
+                self.viol("C10", "frozen_before_third_epoch", format!("{why}: freezer number {frozen} at epoch {cur_epoch}"));
+            } else {
+                let limit = chain
+                    .iter()
+                    .map(|i| &self.w.blocks[*i])
+                    .filter(|b| b.epoch.number == cur_epoch - 2)
+                    .map(|b| b.number)
+                    .max()
+                    .unwrap_or(0);
+                if frozen > limit {
+                    self.viol("C10", "frozen_beyond_threshold", format!("{why}: freezer number {frozen} but the last block of epoch {} is {limit}", cur_epoch - 2));
+                }
+            }
+        }
+        // every main-chain block and each of its parts reads exactly as built
+        for (n, bi) in chain.iter().enumerate() {
+            let b = &self.w.blocks[*bi];
+            let h = b.view.hash();
+            let ok_block = store.get_block(&h).map(|x| x.data().as_slice() == b.view.data().as_slice()).unwrap_or(false);
+            let ok_packed = store.get_packed_block(&h).map(|x| x.as_slice() == b.view.data().as_slice()).unwrap_or(false);
+            let ok_header = store.get_block_header(&h).map(|x| x.hash() == h).unwrap_or(false);
+            let ok_body = {
+                let body = store.get_block_body(&h);
+                body.len() == b.view.transactions().len() && body.iter().zip(b.view.transactions().iter()).all(|(x, y)| x.data().as_slice() == y.data().as_slice())
+            };
+            let ok_hashes = store.get_block_txs_hashes(&h) == b.view.tx_hashes().to_vec();
+            let ok_cellbase = store.get_cellbase(&h).map(|x| x.hash() == b.view.transactions()[0].hash()).unwrap_or(false);
+            let ok_uncles = store.get_block_uncles(&h).map(|x| x.data().as_slice() == b.view.uncles().data().as_slice()).unwrap_or(false);
+            let ok_props = store.get_block_proposal_txs_ids(&h).map(|x| x.as_slice() == b.view.data().proposals().as_slice()).unwrap_or(false);
+            let ok_ext = store.get_block_extension(&h).map(|x| x.as_slice().to_vec()) == b.view.extension().map(|x| x.as_slice().to_vec());
+            let ok_anc = store.get_ancestor(&tip, n as u64).map(|x| x.hash() == h).unwrap_or(false);
+            let mut ok_tx = true;
+            for (ti2, tx) in b.view.transactions().iter().enumerate() {
+                match store.get_transaction_with_info(&tx.hash()) {
+                    Some((t, info)) => {
+                        if t.data().as_slice() != tx.data().as_slice() || info.block_hash != h || info.index != ti2 || info.block_number != n as u64 {
+                            ok_tx = false;
+                        }
+                    }
+                    None => ok_tx = false,
+                }
+            }
+            let parts = [("get_block", ok_block), ("get_packed_block", ok_packed), ("header", ok_header), ("body", ok_body), ("tx_hashes", ok_hashes), ("cellbase", ok_cellbase), ("uncles", ok_uncles), ("proposals", ok_props), ("extension", ok_ext), ("get_ancestor", ok_anc), ("get_transaction", ok_tx)];
+            for (name, ok) in parts {
+                if !ok {
+                    let where_ = if (n as u64) < frozen && n > 0 { "frozen" } else { "unfrozen" };
+                    if std::env::var_os("SIM_TRACE").is_some() {
+                        let got = store.get_block(&h);
+                        eprintln!("[dbg] {name} block {n} expected {} got {:?} raw {:?}", hex(&h), got.as_ref().map(|g| (hex(&g.hash()), g.number(), g.transactions().len(), g.uncles().data().len())), freezer.retrieve(n as u64).map(|r| r.map(|r| r.len())));
+                        eprintln!("[dbg] expected txs {} uncles {} ext {:?}", b.view.transactions().len(), b.view.uncles().data().len(), b.view.extension().map(|e| e.len()));
+                    }
+                    self.viol("C10", &format!("main_chain_block_differs:{name}:{where_}"), format!("{why}: block {n} ({where_}, freezer number {frozen}): {name} does not return the block as built"));
+                    return;
+                }
+            }
+        }
+        // a block that is not on the main chain may have been removed, but a query for it never
+        // answers with another block's data (and never panics)
+        {
+            let on: BTreeSet<usize> = chain.iter().cloned().collect();
+            let side: Vec<usize> = self.delivered_set.iter().cloned().filter(|b| !on.contains(b) && self.w.blocks[*b].number < frozen).collect();
+            for b in side {
+                let h = self.w.blocks[b].view.hash();
+                let want = self.w.blocks[b].view.data();
+                let r = std::panic::catch_unwind(std::panic::AssertUnwindSafe(|| {
+                    let mut bad: Option<&'static str> = None;
+                    if let Some(x) = store.get_block(&h) {
+                        if x.data().as_slice() != want.as_slice() {
+                            bad = Some("get_block");
+                            if std::env::var_os("SIM_TRACE").is_some() {
+                                eprintln!("[dbg] side get_block: got hash {} n={} txs {} uncles {} props {} ext {:?}; want txs {} uncles {} props {} ext {:?}", hex(&x.hash()), x.number(), x.transactions().len(), x.uncles().data().len(), x.data().proposals().len(), x.extension().map(|e| e.len()), want.transactions().len(), want.uncles().len(), want.proposals().len(), self.w.blocks[b].view.extension().map(|e| e.len()));
+                            }
+                        }
+                    }
+                    if let Some(x) = store.get_packed_block(&h) {
+                        if x.as_slice() != want.as_slice() {
+                            bad = bad.or(Some("get_packed_block"));
+                        }
+                    }
+                    if let Some(x) = store.get_block_header(&h) {
+                        if x.hash() != h {
+                            bad = bad.or(Some("header"));
+                        }
+                    }
+                    if let Some(x) = store.get_block_uncles(&h) {
+                        if x.data().as_slice() != want.uncles().as_slice() {
+                            bad = bad.or(Some("uncles"));
+                        }
+                    }
+                    if let Some(x) = store.get_block_proposal_txs_ids(&h) {
+                        if x.as_slice() != want.proposals().as_slice() {
+                            bad = bad.or(Some("proposals"));
+                        }
+                    }
+                    if let Some(x) = store.get_cellbase(&h) {
+                        if x.data().as_slice() != want.transactions().get(0).unwrap().as_slice() {
+                            bad = bad.or(Some("cellbase"));
+                        }
+                    }
+                    let body = store.get_block_body(&h);
+                    if !body.is_empty() && (body.len() != want.transactions().len() || body.iter().zip(want.transactions().into_iter()).any(|(x, y)| x.data().as_slice() != y.as_slice())) {
+                        bad = bad.or(Some("body"));
+                    }
+                    bad
+                }));
+                match r {
+                    Ok(None) => {}
+                    Ok(Some(name)) => {
+                        self.viol("C10", &format!("side_block_query_answers_with_other_data:{name}"), format!("{why}: {name}({}) for side block #{b} at height {} (freezer number {frozen}) returns data of another block", hex(&h), self.w.blocks[b].number));
+                        return;
+                    }
+                    Err(_) => {
+                        let msg = crate::LAST_PANIC.lock().unwrap().clone().unwrap_or_default();
+                        self.viol("C10", &format!("side_block_query_panics:{}", msg.split(" | ").next().unwrap_or("")), format!("{why}: a query for side block #{b} {} at height {} (freezer number {frozen}) panicked: {msg}", hex(&h), self.w.blocks[b].number));
+                        return;
+                    }
+                }
+                self.res.probes.inc("side_block_queries_at_frozen_heights");
+            }
+        }
+        if frozen > 1 {
+            self.res.probes.inc("checked_with_frozen_blocks");
+            // was there a side block at a frozen height? (only those may disappear)
+            let on: BTreeSet<usize> = chain.iter().cloned().collect();
+            if self.w.blocks.iter().any(|b| b.number > 0 && b.number < frozen && !on.contains(&b.idx) && self.delivered_set.contains(&b.idx)) {
+                self.res.probes.inc("side_block_at_frozen_height");
+            }
+        }
+        if let Err((class, d)) = compare_state(&self.w, &*snap, Some(&*snap)) {
+            self.viol("C10", &format!("{class}:{why}"), d);
+        }
     }
 
     /// cold twin of C14: the transaction verification cache is emptied before every verify step
@@ -269,13 +537,20 @@ impl Exec {
         }
         let snap = shared.cloned_snapshot();
         out.push(("tip".into(), fp_bytes(snap.tip_hash().as_slice())));
+        out.push(("tip_td".into(), fp_bytes(format!("{:#x}", snap.total_difficulty()).as_bytes())));
         serde_json::json!({ "c14": out })
     }
 
     /// A Crash marker applies to the segment that precedes it (recovery included): arm it.
     pub fn arm_crash(&mut self, from: usize) {
         let ops = &self.sc.ops;
-        if let Some(Op::Crash { write, after }) = ops[from.min(ops.len())..].iter().find(|o| matches!(o, Op::Crash { .. } | Op::Restart)) {
+        if let Some(Op::Crash { write, after, site, torn }) = ops[from.min(ops.len())..].iter().find(|o| matches!(o, Op::Crash { .. } | Op::Restart)) {
+            if let Some(site) = site {
+                use std::sync::atomic::Ordering::SeqCst;
+                let base = if site == "write-head" { FRZ_HEAD_HITS.load(SeqCst) } else { FRZ_INDEX_HITS.load(SeqCst) };
+                *FRZ_TARGET.lock().unwrap() = Some((site.clone(), base + *write, *torn, self.dir.clone()));
+                return;
+            }
             let base = ckb_db::verif::writes();
             let target = base + *write;
             let after = *after;
@@ -350,12 +625,21 @@ impl Exec {
     }
 
     fn step(&mut self, op: &Op) {
+        self.eff_ops.push(op.clone());
         match op {
             Op::Deliver { b } => {
                 if *b == 0 || *b >= self.w.blocks.len() {
                     return;
                 }
                 self.il.write_u64(0x10 + *b as u64);
+                if self.sc.freezer && !self.above_frozen(*b) {
+                    // a branch leaving the main chain below the freezer's height would need a
+                    // reorganisation deeper than two epochs, which is outside of what the
+                    // freezer is designed for: such deliveries are not part of C10's envelope
+                    self.res.probes.inc("delivery_below_frozen_height_skipped");
+                    self.eff_ops.pop();
+                    return;
+                }
                 let v = self.w.blocks[*b].view.clone();
                 if !self.delivered_set.insert(*b) {
                     self.res.faults.inc("duplicate_delivery");
@@ -452,10 +736,52 @@ impl Exec {
                 self.il.write_u64(8);
                 self.tick();
                 if self.sc.freezer {
-                    if let Err(e) = self.node.shared.verif_freeze() {
+                    if self.inflight_below_threshold() {
+                        // blocks still in the pipeline could reorganise the chain below what this
+                        // pass is about to freeze (possible only with toy epochs): settle them first
+                        self.res.probes.inc("freeze_after_settling_deep_branch");
+                        let at = self.eff_ops.len() - 1;
+                        self.eff_ops.insert(at, Op::Drain);
+                        while self.node.drain() > 0 {}
+                        self.observe("drain");
+                    } else if !self.node.quiescent() {
+                        self.res.probes.inc("freeze_with_blocks_in_flight");
+                    }
+                    let before = self.node.shared.store().freezer().map(|f| f.number()).unwrap_or(1);
+                    *PASS_SIZES.lock().unwrap() = ancient_sizes(&self.dir);
+                    let w0 = {
+                        use std::sync::atomic::Ordering::SeqCst;
+                        [ckb_db::verif::writes() - self.write_base, FRZ_HEAD_HITS.load(SeqCst), FRZ_INDEX_HITS.load(SeqCst)]
+                    };
+                    let fr = self.node.shared.verif_freeze();
+                    {
+                        use std::sync::atomic::Ordering::SeqCst;
+                        let w1 = [ckb_db::verif::writes() - self.write_base, FRZ_HEAD_HITS.load(SeqCst), FRZ_INDEX_HITS.load(SeqCst)];
+                        self.freeze_windows.push([w0[0], w1[0], w0[1], w1[1], w0[2], w1[2]]);
+                    }
+                    if let Err(e) = fr {
                         self.viol("C10", "freeze_failed", e.to_string());
                     }
                     self.res.faults.inc("freeze_pass");
+                    let after = self.node.shared.store().freezer().map(|f| f.number()).unwrap_or(1);
+                    if after > before {
+                        self.res.probes.add("blocks_frozen", after - before);
+                        self.res.nontrivial = true;
+                    }
+                    if after < before {
+                        self.viol("C10", "frozen_number_decreased", format!("{before} -> {after}"));
+                    }
+                    let (te, tn, ibd) = {
+                        let snap = self.node.shared.snapshot();
+                        (snap.epoch_ext().number(), snap.tip_number(), self.node.shared.is_initial_block_download())
+                    };
+                    if ibd {
+                        self.res.probes.inc("freeze_skipped_ibd");
+                    } else if te <= 2 {
+                        self.res.probes.inc("freeze_idle_before_third_epoch");
+                    }
+                    self.ev(&format!("freeze {before}->{after} tip {tn} epoch {te} ibd {ibd}"));
+                    self.check_frozen("after_freeze");
                 }
             }
             Op::Restart | Op::Crash { .. } => unreachable!(),
@@ -859,6 +1185,27 @@ impl Exec {
         if self.sc.prop == "C14" {
             let d = self.answers_digest();
             self.res.extra = Some(d);
+        }
+        if self.sc.prop == "C10" {
+            self.check_frozen("final");
+            // digest over main-chain blocks only (side blocks at frozen heights legitimately vanish)
+            let d = self.answers_digest();
+            let snap = self.node.shared.cloned_snapshot();
+            let main: BTreeSet<String> = match self.w.by_hash.get(&snap.tip_hash()) {
+                Some(ti) => self.w.st(*ti).chain.iter().map(|i| format!("#{i}")).collect(),
+                None => BTreeSet::new(),
+            };
+            let filtered: Vec<serde_json::Value> = d["c14"]
+                .as_array()
+                .unwrap()
+                .iter()
+                .filter(|x| {
+                    let l = x[0].as_str().unwrap();
+                    l == "tip" || l == "tip_td" || !l.starts_with("verdict") && l.split('.').next().map(|p| main.iter().any(|m| p.ends_with(m.as_str()))).unwrap_or(false)
+                })
+                .cloned()
+                .collect();
+            self.res.extra = Some(serde_json::json!({ "c14": filtered, "freeze_windows": self.freeze_windows, "eff_ops": self.eff_ops }));
         }
         let snaps = std::mem::take(&mut self.snaps);
         for s in snaps {
